@@ -122,7 +122,7 @@ pub(super) fn poll_connect(
                 syn: true,
                 ..TcpFlags::default()
             },
-            window: DEFAULT_WINDOW,
+            window: advertised_window(k.recv_buf_cap, 0),
             payload: Bytes::new(),
         },
     );
@@ -534,7 +534,7 @@ fn accept_syn(
                 ack: true,
                 ..TcpFlags::default()
             },
-            window: DEFAULT_WINDOW,
+            window: advertised_window(k.recv_buf_cap, 0),
             payload: Bytes::new(),
         },
     );
@@ -1270,7 +1270,7 @@ fn emit_handshake(k: &mut Kernel, fd: Fd) {
                 ack: ack_flag,
                 ..TcpFlags::default()
             },
-            window: DEFAULT_WINDOW,
+            window: advertised_window(k.recv_buf_cap, 0),
             payload: Bytes::new(),
         },
     );
